@@ -10,7 +10,8 @@
                           without it, and whenever no such document is open, it IS fresh_view (disk w) f)
    demanded w f           what the property demands for f in world w (lists are compared up to order)
    conformant / classes   the boolean predicates on histories used as hypotheses of the guarded theorem; each class
-                          mirrors one confirmed finding (known_findings/C08.json) *)
+                          mirrors one confirmed finding (known_findings/C08.json) and is switched off by the flag of its
+                          repair (Model/Events.v `fixes`): under `deployed` no class is left, guard = conformant *)
 From Coq Require Import List NArith Bool.
 From LH Require Import Model.Diag Model.Events.
 Import ListNotations.
@@ -88,7 +89,8 @@ Section Spec.
   Definition saved_of (w : world A) (f : file) : list err := vget (saved (ds (sv w))) f.
   Definition live_has (w : world A) (f : file) : bool := ahas (live (ds (sv w))) f.
 
-  (* K_outside: the action names a file outside the workspace directories *)
+  (* K_outside: the action names a file outside the workspace directories (a class only while the outside-file repair is
+     off: the repaired code lets such a document take part exactly while it is open, see `member`) *)
   Definition names_outside (a : action A) : bool := existsb (fun f => negb (in_dir A f)) (action_files a).
   Definition k_outside (a : action A) : bool := negb (fix_outside fx) && names_outside a.
 
